@@ -35,6 +35,14 @@ Identity(c, r) ==
   [components |-> SubSeq(FileDir(c), Len(r), Len(FileDir(c))) \o <<c.name>>,     \* root namespace name first
    major |-> c.ver[1], minor |-> c.ver[2], port |-> c.port, root |-> r]
 
+\* the request and the response part of a service are types of their own that live in the same file: the service's name
+\* extended by one component, the service's version, the same back pointers, and no port-ID (the port belongs to the service)
+Parts(c, r) ==
+  IF c.kind = "service"
+  THEN << [Identity(c, r) EXCEPT !.components = @ \o <<"Request">>, !.port = 0 - 1],
+          [Identity(c, r) EXCEPT !.components = @ \o <<"Response">>, !.port = 0 - 1] >>
+  ELSE << >>
+
 \* which directory plays the root
 \* - roots given: the given root directory
 \* - no roots given: by definition the first component of the (relative) target
@@ -148,14 +156,15 @@ PromisedSucceeds == ph = 1 /\ case.api = "files" /\ Promised(case) => Outcome(ca
 Init == ph = 0 /\ case = [depth |-> 0] /\ out = 0
 Pick ==
   /\ ph = 0
-  /\ \E depth \in 0..3, port \in {0 - 1, 0, 7509}, ver \in { <<0, 1>>, <<1, 0>>, <<255, 255>> }, name \in {"T", "Tabby_2"},
+  /\ \E depth \in 0..3, port \in {0 - 1, 0, 7509, 430}, ver \in { <<0, 1>>, <<1, 0>>, <<255, 255>> }, name \in {"T", "Tabby_2"},
         cwd \in Cwds, tsp \in {"abs", "cwdrel", "rootrel"}, rdes \in {"abs", "rel", "name", "none"},
-        extra \in {"none", "before", "after"}, api \in {"files", "namespace"} :
+        extra \in {"none", "before", "after"}, api \in {"files", "namespace"}, kind \in {"message", "service"} :
        LET c == [depth |-> depth, port |-> port, ver |-> ver, name |-> name, cwd |-> cwd, tsp |-> tsp, rdes |-> rdes,
-                 extra |-> extra, api |-> api] IN
+                 extra |-> extra, api |-> api, kind |-> kind] IN
          /\ Spellable(c)
+         /\ (kind = "service" => port # 7509) /\ (kind = "message" => port # 430)     \* service-IDs end at 511
          /\ case' = c
-         /\ out' = [identity |-> Identity(c, ExpectedRoot(c)), promised |-> Promised(c),
+         /\ out' = [identity |-> Identity(c, ExpectedRoot(c)), promised |-> Promised(c), parts |-> Parts(c, ExpectedRoot(c)),
                     model |-> IF api = "files" THEN Outcome(c).k ELSE "ok"]
   /\ ph' = 1
 Spec == Init /\ [][Pick]_vars
@@ -165,6 +174,14 @@ IdentityShape ==
   ph = 1 => /\ Len(out.identity.components) >= 2
             /\ out.identity.components[Len(out.identity.components)] = case.name
             /\ out.identity.components[1] = out.identity.root[Len(out.identity.root)]
+PartsShape ==
+  ph = 1 => /\ Len(out.parts) = (IF case.kind = "service" THEN 2 ELSE 0)
+            /\ \A i \in 1..Len(out.parts) :
+                 /\ SubSeq(out.parts[i].components, 1, Len(out.identity.components)) = out.identity.components
+                 /\ Len(out.parts[i].components) = Len(out.identity.components) + 1
+                 /\ out.parts[i].port = 0 - 1 /\ out.parts[i].root = out.identity.root
+                 /\ out.parts[i].major = out.identity.major /\ out.parts[i].minor = out.identity.minor
+            /\ Len(out.parts) = 2 => out.parts[1].components # out.parts[2].components
 \* the identity does not depend on how target and root are designated (for a fixed root directory)
 DesignationIrrelevant ==
   ph = 1 /\ case.rdes # "none" /\ ExpectedRoot(case) = RootDir =>
